@@ -69,7 +69,7 @@ MIN = {
     'xtrigger_calls': 200, 'xtrigger_satisfied': 40,
     'xtrigger_unsatisfied': 40,
 }
-NCASES = {'quick': 1600, 'thorough': 40000}
+NCASES = {'quick': 1600, 'thorough': 20000}
 QUERIES_PER_DB = 30
 XTRIG_PER_DB = 4
 
